@@ -36,7 +36,7 @@ func (hostile) Rule() string {
 		"2^64-1 through the byte map) — plus, by enumeration, all byte strings of length <= 3 over a 24-byte alphabet of tag bytes and " +
 		"punctuation (complete once 1804 indices have run). Each stream is driven by: two seeded random call sequences (<= 200 calls over " +
 		"all 21 Reader methods, then a drain), a traversal using IntValue, three seeded navigating traversals (skip / enter / leave early per container), Decoder.Decode to exhaustion, and Decoder.DecodeTo into " +
-		"seeded members of a zoo of 40 Go target types, each under whole or chunked simulated delivery. Watchdogs: panic, reads after " +
+		"seeded members of a zoo of 68 Go target types (named key, byte and int types, embedded pointers to unexported structs, nested pointers, unsupported kinds), each under whole or chunked simulated delivery. Watchdogs: panic, reads after " +
 		"end of data, more values than bytes, allocation over 32 MiB + 4 KiB x input length, worker death (write-ahead + isolated re-run), " +
 		"wall-clock stall. Distinct by hash of (damaged bytes, program, delivery); non-trivial = stream of at least 2 bytes."
 }
@@ -553,14 +553,14 @@ func (s hostile) drive(c *Ctx, r *prng.Rand, data []byte) {
 	}
 	s.exec(c, drive.HostileCase{Data: data, Plan: s.plan(r, len(data)), Kind: "decode", Catalog: cat})
 	for q := 0; q < 3; q++ {
-		s.exec(c, drive.HostileCase{Data: data, Plan: s.plan(r, len(data)), Kind: "unmarshal", Target: r.Intn(40), Catalog: cat})
+		s.exec(c, drive.HostileCase{Data: data, Plan: s.plan(r, len(data)), Kind: "unmarshal", Target: r.Intn(drive.TargetCount), Catalog: cat})
 	}
 }
 
 func (s hostile) driveShort(c *Ctx, r *prng.Rand, data []byte) {
 	s.exec(c, drive.HostileCase{Data: data, Plan: planWhole(), Kind: "traverse"})
 	s.exec(c, drive.HostileCase{Data: data, Plan: planBytes(), Kind: "decode"})
-	s.exec(c, drive.HostileCase{Data: data, Plan: planWhole(), Kind: "unmarshal", Target: r.Intn(40)})
+	s.exec(c, drive.HostileCase{Data: data, Plan: planWhole(), Kind: "unmarshal", Target: r.Intn(drive.TargetCount)})
 	calls := make([]int, 12)
 	for j := range calls {
 		calls[j] = r.Intn(len(drive.ReaderOps))
